@@ -188,7 +188,10 @@ def case_frames(mon, jde, eq_jde):
     ident = ("frame", jde, eq_jde)
     if abs(jde - J2000) > 500 * 365.25:
         mon.cls("|year-2000|>500", ident)
-    mon.cls("equinox-other-than-J2000/B1950", ident)
+    if min(abs(eq_jde - J2000), abs(eq_jde - B1950)) < 1.0:
+        mon.cls("standard-equinox-given-to-the-general-function", ident)
+    else:
+        mon.cls("equinox-other-than-J2000/B1950", ident)
     try:
         lon, lat, r = Sun.geometric_geocentric_position(e)
         eps = C.mean_obliquity(e)
@@ -377,6 +380,12 @@ def run(mon, spec):
         eq = jd_of_year(y + rng.uniform(-300.0, 300.0))
         if rng.random() < 0.2:
             eq = jde         # equinox of date: isolates the rotation itself
+        elif rng.random() < 0.15:
+            # the two standard equinoxes (which have dedicated functions of
+            # their own) given to the arbitrary-equinox function, exactly
+            # and within half a day
+            eq = rng.choice((J2000, B1950, 2433282.5)) + rng.choice(
+                (0.0, 0.0, 0.3, -0.3, 1e-6))
         mon.begin("frames", [jde, eq])
         case_frames(mon, jde, eq)
     for _ in range(spec["n_refl"]):
